@@ -227,12 +227,16 @@ func run(p P) *mc.Viol {
 // runReuse: a sequence of honest issuances in which the issuer decodes every request into
 // ONE request object that it keeps between requests (and the client keeps one client value).
 type reuseP struct {
-	T   int   `json:"type"`
-	Key int   `json:"key"`
-	Seq []int `json:"batch_sizes_or_challenge_lens"`
+	T         int   `json:"type"`
+	Key       int   `json:"key"`
+	Seq       []int `json:"batch_sizes_or_challenge_lens"`
+	Pipelined bool  `json:"pipelined,omitempty"` // all requests are evaluated before the first response is finalized (fresh request object each)
 }
 
 func runReuse(p reuseP) *mc.Viol {
+	if p.Pipelined {
+		return runPipelined(p)
+	}
 	lbl := fmt.Sprintf("reuse-t%d-k%d-%v", p.T, p.Key, p.Seq)
 	mc.Entropy("c01-" + lbl)
 	fail := func(step int, what string, err error) *mc.Viol {
@@ -333,6 +337,108 @@ func runReuse(p reuseP) *mc.Viol {
 	return nil
 }
 
+// runPipelined: several honest requests are in flight at one issuer: all are evaluated first
+// (responses kept by the caller), then all are finalized.
+func runPipelined(p reuseP) *mc.Viol {
+	lbl := fmt.Sprintf("pipelined-t%d-k%d-%v", p.T, p.Key, p.Seq)
+	mc.Entropy("c01-" + lbl)
+	fail := func(step int, what string, err error) *mc.Viol {
+		return &mc.Viol{Sig: fmt.Sprintf("type%d honest issuance fails when several requests are in flight at one issuer: %s", p.T, what), What: fmt.Sprintf("%s request %d: %v", lbl, step, err)}
+	}
+	type fin func() error
+	var fins []fin
+	switch p.T {
+	case 1:
+		w := px.NewW1(p.Key)
+		for i, cl := range p.Seq {
+			i := i
+			chal, n := mc.Fill(seedBase, fmt.Sprintf("%s-chal-%d", lbl, i), cl), mc.Fill(seedBase, fmt.Sprintf("%s-n-%d", lbl, i), 32)
+			st, err := w.Create(chal, n, nil)
+			if err != nil {
+				return fail(i, "client-create", err)
+			}
+			resp, se := w.EvaluateWire(st.Request().Marshal())
+			if se != nil {
+				return fail(i, se.Stage, se)
+			}
+			fins = append(fins, func() error {
+				tok, err := st.FinalizeToken(resp)
+				if err != nil {
+					return err
+				}
+				if err := px.CheckLayout(tok.Marshal(), 1, n, chal, w.KeyID); err != nil {
+					return err
+				}
+				return px.VerifyOPRFToken(oprf.SuiteP384, w.KeyBytes, tok.Marshal())
+			})
+		}
+	case 2:
+		w := px.NewW2(p.Key)
+		for i, cl := range p.Seq {
+			chal, n := mc.Fill(seedBase, fmt.Sprintf("%s-chal-%d", lbl, i), cl), mc.Fill(seedBase, fmt.Sprintf("%s-n-%d", lbl, i), 32)
+			st, err := w.Create(chal, n, nil, nil)
+			if err != nil {
+				return fail(i, "client-create", err)
+			}
+			resp, se := w.EvaluateWire(st.Request().Marshal())
+			if se != nil {
+				return fail(i, se.Stage, se)
+			}
+			fins = append(fins, func() error {
+				tok, err := st.FinalizeToken(resp)
+				if err != nil {
+					return err
+				}
+				if err := px.CheckLayout(tok.Marshal(), 2, n, chal, w.KeyID); err != nil {
+					return err
+				}
+				return px.VerifyRSAToken(&w.Key.PublicKey, tok.Marshal())
+			})
+		}
+	case 5:
+		w := px.NewW5(p.Key)
+		for i, b := range p.Seq {
+			chal := mc.Fill(seedBase, fmt.Sprintf("%s-chal-%d", lbl, i), 32)
+			var ns [][]byte
+			for j := 0; j < b; j++ {
+				ns = append(ns, mc.Fill(seedBase, fmt.Sprintf("%s-n-%d-%d", lbl, i, j), 32))
+			}
+			st, err := w.Create(chal, ns, nil)
+			if err != nil {
+				return fail(i, "client-create", err)
+			}
+			resp, se := w.EvaluateWire(st.Request().Marshal())
+			if se != nil {
+				return fail(i, se.Stage, se)
+			}
+			fins = append(fins, func() error {
+				toks, err := st.FinalizeTokens(resp)
+				if err != nil {
+					return err
+				}
+				if len(toks) != len(ns) {
+					return fmt.Errorf("%d tokens for %d nonces", len(toks), len(ns))
+				}
+				for j, t := range toks {
+					if err := px.CheckLayout(t.Marshal(), 5, ns[j], chal, w.KeyID); err != nil {
+						return err
+					}
+					if err := px.VerifyOPRFToken(oprf.SuiteRistretto255, w.KeyBytes, t.Marshal()); err != nil {
+						return err
+					}
+				}
+				return nil
+			})
+		}
+	}
+	for i, f := range fins {
+		if err := f(); err != nil {
+			return fail(i, "client-finalize / token check", err)
+		}
+	}
+	return nil
+}
+
 func runSafe(p P) (v *mc.Viol) {
 	if pn := mc.CatchStack(func() { v = run(p) }); pn != "" {
 		v = &mc.Viol{Sig: fmt.Sprintf("type%d honest flow panics: %s", p.T, trunc(pn, 60)), What: p.label() + ": " + pn}
@@ -340,8 +446,15 @@ func runSafe(p P) (v *mc.Viol) {
 	return v
 }
 
-// originName: printable bytes, never ending in a zero byte.
+// specialNames: spellings that canonicalisation, trimming or text-oriented processing tends to
+// damage; the issuer must serve exactly the name that was registered.
+var specialNames = []string{"origin.example.", ".", "a.", "..", "Origin.Example", "origin.example:8443", "origin.example/", " origin.example", "origin.example ", "caf\u00e9.example", "example.caf\u00e9", "\u4f8b\u3048.jp", "a,b", "*.example", "origin.example\n"}
+
+// originName: printable bytes, never ending in a zero byte; a negative length selects a special name.
 func originName(n, seed int) []byte {
+	if n < 0 {
+		return []byte(specialNames[-n-1])
+	}
 	b := mc.Fill(seedBase, fmt.Sprintf("origin-%d-%d", n, seed), n)
 	for i := range b {
 		b[i] = 'a' + b[i]%26
@@ -466,6 +579,9 @@ func main() {
 				cases = append(cases, P{T: 3, Key: k, CL: 32, NK: sec % 3, Seed: 1, NameLen: 14, Blind: bl, Secret: sec})
 			}
 		}
+		for i := range specialNames {
+			cases = append(cases, P{T: 3, Key: k, CL: 32, NK: 2, Seed: 2, NameLen: -(i + 1), Blind: 5, Secret: 5})
+		}
 	}
 
 	r.SetRule("product of the per-type alphabets (type x key x challenge length x nonce kind x entropy seed x batch x origin length x blind kind x secret kind); every case is a distinct tuple; non-trivial = the flow reached client finalization (all honest cases should)")
@@ -499,6 +615,7 @@ func main() {
 		build = func(cur []int) {
 			if len(cur) >= 2 {
 				reuse = append(reuse, reuseP{T: t, Key: 0, Seq: append([]int{}, cur...)})
+				reuse = append(reuse, reuseP{T: t, Key: 0, Seq: append([]int{}, cur...), Pipelined: true})
 			}
 			if len(cur) == maxLen {
 				return
